@@ -188,6 +188,8 @@ func destinations() []reflect.Type {
 		out = append(out, reflect.TypeOf(p))
 	}
 	out = append(out, reflect.TypeOf((*interface{})(nil)).Elem())
+	// interface types with methods: the destination holds a method table next to the value
+	out = append(out, reflect.TypeOf((*error)(nil)).Elem(), reflect.TypeOf((*fmt.Stringer)(nil)).Elem())
 	return out
 }
 
@@ -419,6 +421,11 @@ func expect(d den, t reflect.Type) (string, string) {
 	lo, hi := intRange(k)
 	isByteSeq := (k == reflect.Slice || k == reflect.Array) && t.Elem().Kind() == reflect.Uint8
 	switch {
+	case t.Kind() == reflect.Interface && t.NumMethod() > 0:
+		if d.kind == "null" {
+			return "=", "nil"
+		}
+		return "-", ""
 	case t.Kind() == reflect.Interface:
 		if d.kind == "null" {
 			return "=", "nil"
